@@ -80,10 +80,10 @@ def reformulate(pep):
         part.get_block(leaves[0].list_of_points[0][0], 0)
 
 
-def call_example(entry, kwargs, wrapper="cvxpy", reformulated=False):
+def call_example(entry, kwargs, wrapper="cvxpy", reformulated=False, solver="CLARABEL"):
     from pv import driver
     bd = driver.boundary()
-    bd.default_solver = "CLARABEL"
+    bd.default_solver = solver
     bd.pre_solve = reformulate if reformulated else None
     mod = importlib.import_module(entry["module"])
     fn = getattr(mod, entry["func"])
@@ -91,7 +91,7 @@ def call_example(entry, kwargs, wrapper="cvxpy", reformulated=False):
     t0 = time.time()
     import inspect
     params = inspect.signature(fn).parameters
-    extra = {k: v for k, v in (("wrapper", wrapper), ("solver", "CLARABEL"), ("verbose", -1)) if k in params}
+    extra = {k: v for k, v in (("wrapper", wrapper), ("solver", solver), ("verbose", -1)) if k in params}
     with contextlib.redirect_stdout(io.StringIO()), warnings.catch_warnings():
         warnings.simplefilter("ignore")
         out = fn(**kwargs, **extra)
@@ -135,9 +135,9 @@ def run_shard(spec):
             if i % NSHARDS != spec["shard"]:
                 continue
             work.append((e, dict(e["base"]), "cvxpy", None))
-            for k in range(spec["draws"]):
-                rng = random.Random("c10/%d/%s/%d" % (spec["seed"], e["name"], k))
-                kw = e["gen"](rng)
+            from pv.ref.draws import generic_draws
+            for k, kw in enumerate(generic_draws(e, spec["seed"], spec["draws"], tag="c10")):
+                rng = random.Random("c10w/%d/%s/%d" % (spec["seed"], e["name"], k))
                 work.append((e, kw, "mosek" if rng.random() < 0.2 else "cvxpy", None))
         for j, (vf, base, kmap) in enumerate(VARIANTS):
             if j % NSHARDS == spec["shard"] and base in byname:
@@ -156,6 +156,7 @@ def run_shard(spec):
         if e.get("cost") == "heavy" and spec["draws"] <= 1 and kw != e["base"]:
             counters["skipped_heavy"] = counters.get("skipped_heavy", 0) + 1
             continue
+        scs_judged = False
         try:
             (pepit, theory), statuses, wall = call_example(e, kw, wrapper)
         except Exception as ex:
@@ -163,8 +164,12 @@ def run_shard(spec):
             counters["example_exceptions:" + name] = counters.get("example_exceptions:" + name, 0) + 1
             if name not in ("SolverError",) and len(notes) < 8:
                 notes.append("%s %r raised %r" % (e["name"], kw, ex))
-            continue
+            statuses = []
+            if name != "SolverError":
+                continue
         if not statuses or not all(is_optimal_status(s) for s in statuses):
+            # (a second opinion from SCS was tried and withdrawn: on these ill-conditioned settings SCS reports "optimal" with
+            #  values that are off by orders of magnitude - DESIGN Appendix B16)
             counters["skipped_not_optimal"] = counters.get("skipped_not_optimal", 0) + 1
             continue
         if variant is None:
@@ -181,7 +186,7 @@ def run_shard(spec):
             if len(samples) < 3:
                 samples.append({"example": e["name"], "kwargs": kw, "wrapper": wrapper, "pepit": pepit, "theory": theory, "kind": e["kind"]})
             # the value must not move under an equivalent formulation (inequalities as 1x1 LMIs on a function)
-            if ok and wrapper == "cvxpy" and random.Random(repr(sorted(kw.items()))).random() < 0.35 and e.get("cost") != "heavy":
+            if ok and not scs_judged and wrapper == "cvxpy" and random.Random(repr(sorted(kw.items()))).random() < 0.35 and e.get("cost") != "heavy":
                 try:
                     (p2, t2), st2, _w = call_example(e, kw, wrapper, reformulated=True)
                     if st2 and all(is_optimal_status(s_) for s_ in st2) and p2 is not None:
